@@ -26,7 +26,7 @@ from lib import core
 from lib.core import f2bits, bits2f
 
 DRIVER = "drv_soln"
-LEAN_TARGETS = ["OmplModel.Props.C04", DRIVER]
+LEAN_TARGETS = ["OmplModel.Props.C04", DRIVER, "drv_rrtstar"]
 INF = float("inf")
 TOL = 1e-9
 
@@ -860,6 +860,220 @@ def judge_runs(ck, hbin, jobs):
                               script=[chk[mode][0], ln], expected=[b], observed=[a], engine="soln")
 
 
+
+# ---------------------------------------------------------------------------------- part D: RRT* in the model
+DRIVER_RRT = "drv_rrtstar"
+
+
+def build_rrt(ck):
+    return ck.build_harness("rrtstar", ["rrtstar.cpp"], link_ompl=True)
+
+
+def rrt_line(j):
+    return "run %s %d %d %d %d %d %d %s %s" % (j["obj"], j["env"], j["dim"], j["seed"], j["lseed"], j["budget"], j["solves"], j["gthr"], j["thr"])
+
+
+def make_rrt_jobs(ck, rng):
+    jobs = []
+    n = 28 if ck.tier == "quick" else 240
+    for i in range(n):
+        r = rng.fork("rrt%d" % i)
+        obj = "work" if i % 4 == 3 else "len"            # work: isSymmetric() == false, the recompute branch of the rewiring
+        env = [0, 1, 2, 3, 4, 5, 5][i % 7]
+        dim = 3 if i % 5 == 4 else 2
+        thr = r.choice(["def", "def", "inf", f2bits(r.choice([1.2, 1.4, 1.7, 2.5]))])
+        budget = r.choice([60, 150, 300, 500]) if ck.tier == "quick" else r.choice([100, 300, 600, 1200, 2000])
+        jobs.append({"obj": obj, "env": env, "dim": dim, "seed": r.range(1, 10 ** 6), "lseed": r.range(1, 10 ** 6), "budget": budget,
+                     "solves": r.choice([1, 2, 3]), "gthr": f2bits(r.choice([0.05, 0.05, 0.1, 0.02])), "thr": thr})
+    return jobs
+
+
+def exec_rrt(ck, hbin, job):
+    out, rc, err = ck.run_bin(hbin, ["rrtstarrun", rrt_line(job)], timeout=300, env=RUN_ENV)
+    out = out or []
+    script = [l[2:] for l in out if l.startswith("S ")]
+    impl = [l[2:] for l in out if l.startswith("R ")]
+    info = [l[2:] for l in out if l.startswith("I ")]
+    model = []
+    if script:
+        model, rc2, err2 = ck.run_bin(ck.driver(DRIVER_RRT), script, timeout=300)
+        model = model or []
+    return job, script, impl, model, info, rc, err
+
+
+def parse_tree(line):
+    """n=<k> idx:parent:cost:inc:children:inGoal:state..."""
+    out = []
+    for tok in line.split()[1:]:
+        f = tok.split(":")
+        out.append({"idx": int(f[0]), "parent": None if f[1] == "-" else int(f[1]), "cost": bits2f(f[2]), "costbits": f[2], "inc": bits2f(f[3]),
+                    "children": [] if f[4] == "-" else [int(x) for x in f[4].split(",")], "inGoal": f[5] == "1",
+                    "state": [bits2f(x) for x in f[6].split(",")]})
+    return out
+
+
+def work_field(p):
+    return 1.0 + p[0] * p[0]
+
+
+def oracle_rrt(job, script, impl):
+    """what the property (and the theorems' invariants) say, evaluated on the REAL planner's lines only.
+    returns list of (kind, what)."""
+    fails = []
+    thr = None
+    for t in script[0].split():
+        if t.startswith("thr="):
+            thr = bits2f(t[4:])
+    prev_best = None
+    last_digest = None
+    for ln, o in zip(script[1:], impl):
+        if ln == "it":
+            f = parse_flags(o)
+            best = bits2f(f["best"])
+            if prev_best is not None and prev_best < best:
+                fails.append(("rrt-best-worse", "bestCost_ went from %r to %r at pass %s" % (prev_best, best, f.get("it"))))
+            if (f.get("bg") == "-") != math.isinf(best):
+                fails.append(("rrt-best", "bestGoalMotion_ %s but bestCost_ %r at pass %s" % (f.get("bg"), best, f.get("it"))))
+            prev_best = best
+            last_digest = f
+        elif ln == "rep" and o != "rep none":
+            f = parse_flags(o)
+            stored, true = bits2f(f["stored"]), bits2f(f["true"])
+            if f["stored"] != f["true"] and not close(stored, true, TOL):
+                fails.append(("rrt-stored", "stored cost %r but the reported %s path costs %r" % (stored, "approximate" if f["approx"] == "1" else "exact", true)))
+            sat = stored < thr
+            if f["approx"] == "0" and (f["opt"] == "1") != sat:
+                fails.append(("rrt-optimized-flag", "optimized_=%s but isSatisfied(stored %r, threshold %r)=%s" % (f["opt"], stored, thr, sat)))
+            if f["approx"] == "1" and f["opt"] == "1" and not sat:
+                fails.append(("rrt-optimized-flag", "approximate solution marked optimized, stored %r, threshold %r" % (stored, thr)))
+            if f["approx"] == "0" and last_digest is not None and f["stored"] != last_digest["best"]:
+                fails.append(("rrt-stored", "stored cost %r is not bestCost_ %r" % (stored, bits2f(last_digest["best"]))))
+        elif ln == "tree":
+            ms = parse_tree(o)
+            n = len(ms)
+            kids = {}
+            for m in ms:
+                p = m["parent"]
+                if p is None:
+                    if m["cost"] != 0.0:
+                        fails.append(("rrt-cost-inv", "root %d has cost %r" % (m["idx"], m["cost"])))
+                    continue
+                if not (0 <= p < n):
+                    fails.append(("rrt-tree", "motion %d has parent %d out of range" % (m["idx"], p)))
+                    continue
+                kids.setdefault(p, []).append(m["idx"])
+                pm = ms[p]
+                if f2bits(pm["cost"] + m["inc"]) != m["costbits"]:
+                    fails.append(("rrt-cost-inv", "motion %d: cost %r is not parent %d's cost %r + incCost %r" % (m["idx"], m["cost"], p, pm["cost"], m["inc"])))
+                d = math.sqrt(sum((a - b) * (a - b) for a, b in zip(pm["state"], m["state"])))
+                if job["obj"] == "len":
+                    exp = d
+                else:
+                    exp = max(work_field(m["state"]) - work_field(pm["state"]), 0.0) + 0.5 * d
+                if not close(m["inc"], exp, 1e-12):
+                    fails.append(("rrt-cost-inv", "motion %d: incCost %r is not motionCost(parent, motion) = %r" % (m["idx"], m["inc"], exp)))
+            for m in ms:
+                if sorted(m["children"]) != sorted(kids.get(m["idx"], [])):
+                    fails.append(("rrt-tree", "children list of motion %d is %s, its children by parent pointer are %s" % (m["idx"], m["children"][:20], kids.get(m["idx"], [])[:20])))
+                    break
+            # every parent chain ends at a root within n steps
+            depth = {}
+            for m in ms:
+                i, steps = m["idx"], 0
+                while i is not None and steps <= n:
+                    i = ms[i]["parent"] if 0 <= i < n else None
+                    steps += 1
+                if steps > n:
+                    fails.append(("rrt-tree", "parent chain of motion %d does not reach a start (cycle)" % m["idx"]))
+                    break
+    return fails
+
+
+def judge_rrt(ck, hbin, jobs):
+    with concurrent.futures.ThreadPoolExecutor(max_workers=min(12, (os.cpu_count() or 4))) as ex:
+        results = list(ex.map(lambda j: exec_rrt(ck, hbin, j), jobs))
+    nrep = 0
+    for job, script, impl, model, info, rc, err in results:
+        ck.traces_validated += 1
+        passes = sum(1 for l in script if l == "it")
+        ck.case(("rrt", rrt_line(job)), passes >= 20)
+        ck.count("rrt-runs")
+        ck.count("rrt-obj:" + job["obj"])
+        ck.count("rrt-env:%d" % job["env"])
+        ck.count("rrt-dim:%d" % job["dim"])
+        ck.count("rrt-passes", passes)
+        ck.count("rrt-solves", sum(1 for l in script if l == "rep"))
+        for ln, o in zip(script[1:], impl):
+            if ln == "rep":
+                ck.count("rrt-report:" + ("none" if o == "rep none" else "approximate" if "approx=1" in o else "exact"))
+            if ln == "tree":
+                ck.count("rrt-motions-final", int(o.split()[0][2:]))
+        ck.sample({"rrt": rrt_line(job), "info": info[:3]}, limit=12)
+        fails = oracle_rrt(job, script, impl) if script else [("rrt-crash", "no output")]
+        if rc != 0:
+            fails.append(("rrt-crash", "harness exited with code %s: %s" % (rc, (err or "")[-300:])))
+        inconclusive = any(("tie=1" in m or "starved=1" in m or "fuel=1" in m) for m in model if m.startswith("it="))
+        d = ck.first_diff(impl, model) if script else None
+        if inconclusive and not fails:
+            ck.count("rrt-inconclusive(tie/heap)")
+            d = None
+        seen = set()
+        for kind, what in fails:
+            if kind in seen or nrep >= 6:
+                continue
+            seen.add(kind)
+            new = ck.report({"engine": "rrtstar", "part": "D", "kind": kind, "planner": "RRTstar", "objective": job["obj"], "what": what},
+                            script=["rrtstarrun", rrt_line(job)], expected=model[:40], observed=impl[:40], engine="rrtstar")
+            if new:
+                nrep += 1
+                ck.log("property failure in RRT* lock-step run %s: [%s] %s" % (rrt_line(job), kind, what[:300]))
+        if d is not None and not fails:
+            ck.disagreements += 1
+            if nrep < 6:
+                nrep += 1
+                # shrink: the smallest budget on which the two still differ
+                lo, hi, small = 1, job["budget"], job
+                while lo < hi:
+                    mid = (lo + hi) // 2
+                    j2 = dict(job, budget=mid, solves=1)
+                    _j, s2, i2, m2, _inf, _rc, _e = exec_rrt(ck, hbin, j2)
+                    if s2 and ck.first_diff(i2, m2) is not None:
+                        hi, small = mid, j2
+                    else:
+                        lo = mid + 1
+                _j, s2, i2, m2, _inf, _rc, _e = exec_rrt(ck, hbin, small)
+                dd = ck.first_diff(i2, m2)
+                if dd is None:
+                    s2, i2, m2, dd = script, impl, model, d
+                    small = job
+                what = "model and real RRTstar differ at script line %s (`%s`): impl `%s` / model `%s`" % (
+                    dd, s2[dd + 1][:40] if dd + 1 < len(s2) else "?", (i2[dd] if dd < len(i2) else "<missing>")[:260], (m2[dd] if dd < len(m2) else "<missing>")[:260])
+                ck.report({"engine": "rrtstar", "part": "D", "what": what}, script=["rrtstarrun", rrt_line(small)], expected=m2[max(0, dd - 2):dd + 3],
+                          observed=i2[max(0, dd - 2):dd + 3], found_input=False, engine="rrtstar",
+                          obligation="correspondence rrtstar: RRTstar.cpp vs OmplModel.Model.RRTstar (%s)" % what[:400])
+                ck.log("RRT* lock-step disagreement: %s" % what[:300])
+    # the std::sort port against the real std::sort (ties included)
+    r = ck.rng.fork("sorttest")
+    lines = ["rrtstarrun"]
+    for _ in range(120 if ck.tier == "quick" else 1500):
+        n = r.choice([0, 1, 2, 5, 16, 17, 18, 33, 40, 100, 257, 600])
+        rr = r.choice([1, 2, 3, 10, 10 ** 6])
+        lines.append(("sorttest %d %s" % (n, " ".join(str(r.below(rr)) for _ in range(n)))).strip())
+    impl, rc, err = ck.run_bin(hbin, lines)
+    lines[0] = "rrtstar dim=2 obj=len maxdist=0 krrt=0 gbias=0 gthr=0 thr=0 goal=0,0"
+    model, rc2, err2 = ck.run_bin(ck.driver(DRIVER_RRT), lines)
+    for k, ln in enumerate(lines[1:]):
+        a = (impl or [])[k] if k < len(impl or []) else "<missing>"
+        b = (model or [])[k] if k < len(model or []) else "<missing>"
+        ck.count("rrt-sorttest")
+        if b.startswith("heap"):
+            ck.count("rrt-sorttest-heap-fallback")
+        elif a != b:
+            ck.disagreements += 1
+            ck.report({"engine": "rrtstar", "part": "D", "what": "std::sort port differs from std::sort"}, script=[lines[0], ln], expected=[b], observed=[a],
+                      found_input=False, engine="rrtstar", obligation="correspondence rrtstar: libstdc++ std::sort vs OmplModel.RRTstar.stdSort")
+            break
+
 # ---------------------------------------------------------------------------------- the check
 def corpus():
     d = os.path.join(core.VERIF, "corpus", "C04")
@@ -877,6 +1091,7 @@ def build(ck):
 
 def setup(ck):
     build(ck)
+    build_rrt(ck)
 
 
 def run(ck):
@@ -897,7 +1112,7 @@ def run(ck):
                        "IEEE rounding is executed (bit-compared with the model), not verified: the order/fold theorems are proved for "
                        "exact linear orders / ordered groups"]
     ck.lean_build(LEAN_TARGETS)
-    ck.audit(roots=["Drv.Soln"])
+    ck.audit(roots=["Drv.Soln", "Drv.RRTstar"])
     if ck.tier == "thorough" and ck.lean_ok:
         ck.leanchecker(["OmplModel.Props.C04"])
     hbin = build(ck)
@@ -920,6 +1135,11 @@ def run(ck):
     ck.log("parts A/B done (%d scripts)" % ck.traces_validated)
     jobs = make_jobs(ck, ck.rng.fork("runs"))
     judge_runs(ck, hbin, jobs)
+    ck.log("part C done (%d planner runs)" % len(jobs))
+    hrrt = build_rrt(ck)
+    rjobs = make_rrt_jobs(ck, ck.rng.fork("rrt"))
+    judge_rrt(ck, hrrt, rjobs)
+    ck.extra_cov["rrtstar_lockstep_runs"] = len(rjobs)
     ck.extra_cov["planner_runs"] = len(jobs)
     ck.extra_cov["planners"] = sorted(PLANNERS)
     return 0
@@ -929,6 +1149,27 @@ def replay(ck, data):
     hbin = build(ck)
     ck.lean_build([DRIVER])
     script = data["script"]
+    if script and script[0] == "rrtstarrun":
+        hrrt = build_rrt(ck)
+        ck.lean_build([DRIVER_RRT])
+        t = script[1].split()
+        job = {"obj": t[1], "env": int(t[2]), "dim": int(t[3]), "seed": int(t[4]), "lseed": int(t[5]), "budget": int(t[6]), "solves": int(t[7]),
+               "gthr": t[8], "thr": t[9]}
+        _j, s2, impl, model, info, rc, err = exec_rrt(ck, hrrt, job)
+        fails = oracle_rrt(job, s2, impl) if s2 else [("rrt-crash", "no output")]
+        d = ck.first_diff(impl, model)
+        for l in info:
+            print(l)
+        for k, w in fails:
+            print("FAILS [%s]: %s" % (k, w[:400]))
+        if d is not None:
+            print("model and real RRTstar differ at script line %d (`%s`)" % (d, s2[d + 1][:40] if d + 1 < len(s2) else "?"))
+            print("  impl : %s" % (impl[d] if d < len(impl) else "<missing>")[:400])
+            print("  model: %s" % (model[d] if d < len(model) else "<missing>")[:400])
+        if fails or d is not None or rc != 0:
+            return 1
+        print("no failure on the current tree")
+        return 0
     if script and script[0] == "solnrun":
         out, rc, err = ck.run_bin(hbin, script, timeout=300, env=RUN_ENV)
         for l in out or []:
